@@ -52,6 +52,7 @@ fn main() {
         i += 1;
     }
     util::quiet_panics();
+    util::start_watchdog(&prop, &o.out, if o.tier == "thorough" { 120 } else { 45 }, 12_000);
     let rep = match prop.as_str() {
         "C13" => c13::run(&o),
         "C01" => c01::run(&o),
